@@ -181,3 +181,7 @@ def run(ck, prog, ctx):
     ck.rule("GETTER", "an accessor `f()` / `f_mut()` of a struct with a field `f` (or its documented alias) derives its result from that field (DESIGN 3.9)")
     from engines import check_getters
     check_getters(ck, "GETTER", prog, r"^src/ontology\.rs$", floor=3)
+    # failures of fallible crate functions are propagated or asserted, never turned into success
+    ck.rule("ERR", "every call of a crate function returning Result<_, HpoError> propagates the error (`?` / return / match), panics on it (unwrap / expect), or is a listed documented exception; none replaces it by a default")
+    from engines import check_error_discipline
+    check_error_discipline(ck, "ERR", prog, r"^src/ontology\.rs$", allowed=[(r"^Ontology::hpo$", r"try_new$", "documented: Ontology::hpo answers None for an id that is not in the ontology")], floor=3)
